@@ -204,24 +204,17 @@ def merge_stats(a, b):
 
 
 def run_impl(impl, cases, path):
-    """the harness exits with status 3 on a hang (after printing the hung case id): the rest runs in a new process"""
-    logs = {}
-    rest = list(cases)
-    rounds = 0
-    while rest and rounds < 20:
-        rounds += 1
-        conc_check.write_cases(path, rest)
-        rc, out = vcheck.sh([impl, path], timeout=900)
-        part = conc_check.parse_logs(out)
-        logs.update(part)
-        hung = [cid for cid, l in part.items() if l["end"] == "hang"]
-        if not hung:
-            break
-        idx = next((j for j, c in enumerate(rest) if c["id"] == hung[0]), None)
-        if idx is None:
-            break
-        rest = rest[idx + 1:]
-    return logs
+    """the harness exits with status 3 on a hang (after printing the hung case id); the cases after it in this
+    chunk are not run (one hang is a finding; a mutant that hangs often must not cost 3 s per case)"""
+    conc_check.write_cases(path, cases)
+    rc, out = vcheck.sh([impl, path], timeout=900)
+    logs = conc_check.parse_logs(out)
+    hung = [cid for cid, l in logs.items() if l["end"] == "hang"]
+    skipped = set()
+    if hung:
+        idx = next((j for j, c in enumerate(cases) if c["id"] == hung[0]), len(cases) - 1)
+        skipped = set(c["id"] for c in cases[idx + 1:])
+    return logs, skipped
 
 
 def run_chunk(work, model, impl, cases, tag):
@@ -229,7 +222,8 @@ def run_chunk(work, model, impl, cases, tag):
     conc_check.write_cases(cf, cases)
     rc1, out1 = vcheck.sh("%s %d < %s" % (model, 20000, cf), timeout=900)
     mlog = conc_check.parse_logs(out1)
-    ilog = run_impl(impl, cases, os.path.join(work, tag + "_i.txt"))
+    ilog, skipped = run_impl(impl, cases, os.path.join(work, tag + "_i.txt"))
+    cases = [c for c in cases if c["id"] not in skipped]
     st = new_stats()
     first_div = None
     hits = []
@@ -341,6 +335,8 @@ def run(ctx):
     else:
         plan = [(0, 0, 2, 24), (0, 1, 2, 24), (0, 3, 2, 24), (1, 0, 2, 16), (2, 1, 2, 20)]
     for (v, p, sw, ml) in plan:
+        if hits:
+            break       # a concrete failing case is already reported
         sc = sweep_cases(v, p, sw, ml)
         nsweep += len(sc)
         sweep_desc.append({"variant": VARIANT_NAMES[v], "program": SWEEP_PROGRAMS[p][3], "context_switches": sw, "segment_lengths": "0..%d" % ml, "schedules": len(sc)})
